@@ -88,7 +88,7 @@ def main():
     json.dump(results, open(os.path.join(VERIF, "build", "mutants-result.json"), "w"), indent=1)
     import time
     head = subprocess.run(["git", "-C", "/repo", "rev-parse", "--short", "HEAD"], capture_output=True, text=True).stdout.strip()
-    with open(os.path.join(VERIF, "build", "sensitivity-log.jsonl"), "a") as f:
+    with open(os.path.join(VERIF, "driver", "sensitivity-log.jsonl"), "a") as f:
         for r in results:
             f.write(json.dumps({"name": r[0], "prop": r[1], "status": r[2], "detail": r[3], "tier": tier, "repo": head, "at": int(time.time())}) + "\n")
     missed = [r for r in results if r[2] == "MISSED"]
